@@ -689,6 +689,10 @@ func propC10(c *Ctx) string {
 	c10Publish(c, v)
 	c10Pubrel(c, v)
 	c10NoAck(c, v)
+	// a rejected message must end the connection (so that the broker redelivers): Close has to close the carrier on
+	// every path; and the handshake is reached only if the stream decoder reads every legal PUBLISH
+	c19ErrClose(c)
+	c01Const(c, "C10/DETECT")
 	c.NotDecide("broker scripts with connection drops and session resumption in general", "the announce-on-publish mode's documented redelivery", "application-level deduplication")
 	c.Assume("Session contract: LookupPacket returns nil for unknown ids", "instance-insensitive field keys")
 	return c10Explanation
